@@ -32,6 +32,12 @@ type RefSpec struct {
 	CycGrad  int        `json:"cyc_grad"`  // gradient href cycles (incl. self)
 	CycPat   int        `json:"cyc_pat"`   // pattern href cycles / pattern content painting with the pattern
 	Uses     int        `json:"uses"`
+	// clipPath / mask / marker definitions whose content (or own attribute) leads back to a
+	// definition under way, and how many rendered elements reference such a definition
+	CycClip   int `json:"cyc_clip"`
+	CycMask   int `json:"cyc_mask"`
+	CycMarker int `json:"cyc_marker"`
+	CycUsed   int `json:"cyc_used"`
 }
 
 type rnode struct {
@@ -196,6 +202,7 @@ func genRefsOnce(r *rand.Rand) *In {
 		}
 		return n
 	}
+	defRef := map[string][]string{} // clipPath/mask/marker id -> ids referenced from its content or itself
 	for _, n := range defs {
 		switch n.tag {
 		case "g":
@@ -226,13 +233,75 @@ func genRefsOnce(r *rand.Rand) *In {
 			}
 			n.children = append(n.children, &rnode{tag: "rect", attrs: fmt.Sprintf(` width="6" height="6" fill="%s"`, fill)})
 		case "clipPath":
-			// content without clip-path references (cycles there: findings/C18/clip-path-cycle.json)
-			n.children = append(n.children, &rnode{tag: "rect", attrs: ` x="0" y="0" width="150" height="150"`})
+			// content (and the definition itself) may be clipped by any clipPath, itself included:
+			// such references must be ignored, not followed (cycles recursed without end on the
+			// snapshot tree: findings/C18/clip-path-cycle.json, repaired)
+			child := &rnode{tag: "rect", attrs: ` x="0" y="0" width="150" height="150"`}
+			if r.Intn(2) == 0 {
+				id := refTo(n.id)
+				child.attrs += fmt.Sprintf(` clip-path="url(#%s)"`, id)
+				defRef[n.id] = append(defRef[n.id], id)
+			}
+			if r.Intn(4) == 0 {
+				id := refTo(n.id)
+				n.attrs += fmt.Sprintf(` clip-path="url(#%s)"`, id)
+				defRef[n.id] = append(defRef[n.id], id)
+			}
+			n.children = append(n.children, child)
 		case "mask":
-			n.children = append(n.children, &rnode{tag: "rect", attrs: ` x="0" y="0" width="150" height="150" fill="#fff"`})
+			child := &rnode{tag: "rect", attrs: ` x="0" y="0" width="150" height="150" fill="#fff"`}
+			if r.Intn(2) == 0 {
+				id := refTo(n.id)
+				child.attrs += fmt.Sprintf(` mask="url(#%s)"`, id)
+				defRef[n.id] = append(defRef[n.id], id)
+			}
+			if r.Intn(4) == 0 {
+				id := refTo(n.id)
+				n.attrs += fmt.Sprintf(` mask="url(#%s)"`, id)
+				defRef[n.id] = append(defRef[n.id], id)
+			}
+			n.children = append(n.children, child)
 		case "marker":
 			n.attrs = ` markerWidth="4" markerHeight="4"`
-			n.children = append(n.children, &rnode{tag: "path", attrs: ` d="M0 0 L4 2 L0 4 z" fill="#333"`})
+			child := &rnode{tag: "path", attrs: ` d="M0 0 L4 2 L0 4 z" fill="#333"`}
+			if r.Intn(2) == 0 {
+				id := refTo(n.id)
+				child.attrs += fmt.Sprintf(` %s="url(#%s)"`, []string{"marker", "marker-start", "marker-mid", "marker-end"}[r.Intn(4)], id)
+				defRef[n.id] = append(defRef[n.id], id)
+			}
+			n.children = append(n.children, child)
+		}
+	}
+	// which clipPath / mask / marker definitions lead into a cycle of their own kind
+	cyclic := map[string]bool{}
+	for _, n := range defs {
+		if n.tag != "clipPath" && n.tag != "mask" && n.tag != "marker" {
+			continue
+		}
+		var visit func(id string, path map[string]bool) bool
+		visit = func(id string, path map[string]bool) bool {
+			if path[id] {
+				return true
+			}
+			path[id] = true
+			defer delete(path, id)
+			for _, nx := range defRef[id] {
+				if t := g.byID[nx]; t != nil && t.tag == n.tag && visit(nx, path) {
+					return true
+				}
+			}
+			return false
+		}
+		if visit(n.id, map[string]bool{}) {
+			cyclic[n.id] = true
+			switch n.tag {
+			case "clipPath":
+				g.spec.CycClip++
+			case "mask":
+				g.spec.CycMask++
+			default:
+				g.spec.CycMarker++
+			}
 		}
 	}
 	// rendered content
@@ -242,11 +311,21 @@ func genRefsOnce(r *rand.Rand) *In {
 		for _, a := range []string{"clip-path", "mask", "marker-start", "marker-mid", "marker-end", "marker", "filter"} {
 			if r.Intn(5) == 0 {
 				id := g.anyID()
-				// a reference into a cycle of clip/mask/marker content is excluded by construction:
-				// those definitions never contain references
+				// half of the time a definition of the right kind, when there is one
+				var fit []string
+				for _, d := range defs {
+					if kindMatches(a, d.tag) {
+						fit = append(fit, d.id)
+					}
+				}
+				if len(fit) > 0 && r.Intn(2) == 0 {
+					id = fit[r.Intn(len(fit))]
+				}
 				s += fmt.Sprintf(` %s="url(#%s)"`, a, id)
 				if t := g.byID[id]; t == nil || !kindMatches(a, t.tag) {
 					g.spec.Missing++
+				} else if cyclic[id] {
+					g.spec.CycUsed++
 				}
 			}
 		}
@@ -413,7 +492,11 @@ func checkRefs(in *In, res *fw.Result) {
 	res.Count("refs_cycle_gradient", int64(sp.CycGrad))
 	res.Count("refs_cycle_pattern", int64(sp.CycPat))
 	res.Count("refs_uses", int64(sp.Uses))
-	res.Nontrivial = sp.Missing+sp.CycGrad+sp.CycPat > 0 || sp.UseCycle
+	res.Count("refs_cycle_clip", int64(sp.CycClip))
+	res.Count("refs_cycle_mask", int64(sp.CycMask))
+	res.Count("refs_cycle_marker", int64(sp.CycMarker))
+	res.Count("refs_cycle_def_used", int64(sp.CycUsed))
+	res.Nontrivial = sp.Missing+sp.CycGrad+sp.CycPat+sp.CycUsed > 0 || sp.UseCycle
 	if d.err != nil {
 		if sp.UseCycle {
 			// a cyclic <use> makes the document erroneous; rejecting it as a whole is tolerated
